@@ -90,55 +90,99 @@ def kernel_text(md, md_id):
     return "\n".join(lines)
 
 
-def algorithm_text(md, md_id):
-    '''One invoke of the kernel with default-precision data.  Algorithm
-    arguments follow the user guide: data arguments in metadata order, a
-    stencil extent right after its field, a direction right after the extent
-    (XORY1D), quadrature objects last in gh_shape order.'''
-    mod, typ, _ = kernel_names(md_id)
-    decls = []
-    actual = []
-    uses = {"constants_mod": {"i_def", "r_def", "l_def"}}
+PREFIX = {"scalar": "sc", "field": "f", "op": "op", "cma": "cm"}
+
+
+def names_for(md, k=None, act=None, qsh=False):
+    '''The algorithm-layer names used for one kernel call: its data arguments
+    (args), stencil extents (ext) and directions (dir) by metadata position and
+    its quadrature objects (qr: name -> shape).  For a kernel of a multi-kernel
+    invoke k is its position in the invoke, act the identities of its actual
+    arguments (equal identity = same variable in several kernels) and qsh says
+    that quadrature objects are shared per shape.'''
+    res = {"args": [], "ext": {}, "dir": {}, "qr": {}}
     for i, arg in enumerate(md["args"], 1):
-        name = arg_name(i, arg)
+        ident = str(i) if act is None else str(act[i - 1])
+        tag = str(i) if k is None else f"{k}{i}"
+        res["args"].append(PREFIX[arg["t"]] + ident)
+        if arg["t"] == "field" and arg["st"] != "none":
+            res["ext"][i] = "ex" + tag
+            if arg["st"] == "xory1d":
+                res["dir"][i] = "dr" + tag
+    for j, shape in enumerate(md["shapes"], 1):
+        if shape == "evaluator":
+            continue
+        if qsh:
+            res["qr"]["qrs" + shape] = shape
+        else:
+            res["qr"]["qr" + (str(j) if k is None else f"{k}{j}")] = shape
+    return res
+
+
+def _declare(md, names, decls, uses):
+    '''Declarations (name -> text) and actual argument list of one kernel.'''
+    actual = []
+    for i, arg in enumerate(md["args"], 1):
+        name = names["args"][i - 1]
+        actual.append(name)
         if arg["t"] == "scalar":
-            decls.append(f"{SCALAR_DECL[arg['dt']]} :: {name}")
-            actual.append(name)
+            decls[name] = f"{SCALAR_DECL[arg['dt']]} :: {name}"
         elif arg["t"] == "field":
             ftype = "field_type" if arg["dt"] == "real" else "integer_field_type"
             uses.setdefault("field_mod" if arg["dt"] == "real"
                             else "integer_field_mod", set()).add(ftype)
             dim = "" if arg["vec"] == 1 else f"({arg['vec']})"
-            decls.append(f"type({ftype}) :: {name}{dim}")
-            actual.append(name)
-            if arg["st"] != "none":
-                decls.append(f"integer(kind=i_def) :: ex{i}")
-                actual.append(f"ex{i}")
-                if arg["st"] == "xory1d":
-                    decls.append(f"integer(kind=i_def) :: dr{i}")
-                    actual.append(f"dr{i}")
+            decls[name] = f"type({ftype}) :: {name}{dim}"
+            if i in names["ext"]:
+                decls[names["ext"][i]] = f"integer(kind=i_def) :: {names['ext'][i]}"
+                actual.append(names["ext"][i])
+            if i in names["dir"]:
+                decls[names["dir"][i]] = f"integer(kind=i_def) :: {names['dir'][i]}"
+                actual.append(names["dir"][i])
         elif arg["t"] == "op":
             uses.setdefault("operator_mod", set()).add("operator_type")
-            decls.append(f"type(operator_type) :: {name}")
-            actual.append(name)
+            decls[name] = f"type(operator_type) :: {name}"
         else:
             uses.setdefault("columnwise_operator_mod", set()).add(
                 "columnwise_operator_type")
-            decls.append(f"type(columnwise_operator_type) :: {name}")
-            actual.append(name)
-    for j, shape in enumerate(md["shapes"], 1):
-        if shape == "evaluator":
-            continue
+            decls[name] = f"type(columnwise_operator_type) :: {name}"
+    for qname, shape in names["qr"].items():
         qtype = QR_TYPE[shape] + "_type"
         uses.setdefault(QR_TYPE[shape] + "_mod", set()).add(qtype)
-        decls.append(f"type({qtype}) :: qr{j}")
-        actual.append(f"qr{j}")
-    lines = [f"program c21alg{md_id}"]
+        decls[qname] = f"type({qtype}) :: {qname}"
+        actual.append(qname)
+    return actual
+
+
+def invoke_text(kernels, alg_id):
+    '''One invoke of the kernels [(md, md_id, names)] in order, with
+    default-precision data.  Algorithm arguments follow the user guide: data
+    arguments in metadata order, a stencil extent right after its field, a
+    direction right after the extent (XORY1D), quadrature objects last in
+    gh_shape order.'''
+    decls = {}
+    uses = {"constants_mod": {"i_def", "r_def", "l_def"}}
+    calls = []
+    kuses = []
+    for md, md_id, names in kernels:
+        mod, typ, _ = kernel_names(md_id)
+        actual = _declare(md, names, decls, uses)
+        calls.append(f"{typ}(" + ", ".join(actual) + ")")
+        kuses.append(f"  use {mod}, only: {typ}")
+    lines = [f"program c21alg{alg_id}"]
     for m in sorted(uses):
         lines.append(f"  use {m}, only: " + ", ".join(sorted(uses[m])))
-    lines.append(f"  use {mod}, only: {typ}")
+    lines += kuses
     lines.append("  implicit none")
-    lines += ["  " + d for d in decls]
-    lines.append(f"  call invoke({typ}(" + ", ".join(actual) + "))")
-    lines.append(f"end program c21alg{md_id}")
+    lines += ["  " + d for d in decls.values()]
+    lines.append("  call invoke( &")
+    for n, call in enumerate(calls):
+        lines.append("    " + call + (", &" if n + 1 < len(calls) else " &"))
+    lines.append("    )")
+    lines.append(f"end program c21alg{alg_id}")
     return "\n".join(lines) + "\n"
+
+
+def algorithm_text(md, md_id):
+    '''One invoke of one kernel.'''
+    return invoke_text([(md, md_id, names_for(md))], md_id)
